@@ -304,6 +304,7 @@ pub fn model_case(case: &Value, mode: &str, rep: &mut Report) {
         "fast" => with_bp_small!(b, p, fast_case(case, mode, rep)),
         "leaky" => with_bp_small!(b, p, leaky_case(case, mode, rep)),
         "diag" => with_bp_diag!(b, p, diag_case(case, mode, rep)),
+        "floatclass" => with_bp_small!(b, p, floatclass_case(case, mode, rep)),
         k => panic!("unknown model case kind {}", k),
     }
 }
@@ -575,4 +576,47 @@ where Pr: VInt + Into<usize> + AsPrimitive<usize> + Into<f64> + Into<f32>, usize
     rep.class("diag_model");
     if P == Pr::nbits() as usize { rep.class("diag_full_precision"); }
     match r { Ok((out, checks)) => { rep.checks += checks; for d in out.into_iter().take(4) { rep.mismatch(case, d); } } Err(m) => rep.mismatch(case, format!("panic in diagnostics: {}", m)) }
+}
+
+// ---------------------------------------------------------------------------------------------
+// kind "floatclass": float constructors on weights of every class (negative, NaN, infinite, zero, tiny, huge)
+// ---------------------------------------------------------------------------------------------
+fn class_val(c: u64) -> f64 { match c { 0 => 0.0, 1 => 1.0, 2 => 1e-30, 3 => 1e30, 4 => -1.0, 5 => f64::NAN, 6 => f64::INFINITY, _ => 3.0 } }
+
+pub fn floatclass_f<Pr, F, const P: usize>(case: &Value, mode: &str, rep: &mut Report, fname: &str)
+where Pr: VInt + Into<usize> + AsPrimitive<usize> + Into<f64> + AsPrimitive<F>, usize: AsPrimitive<Pr> + AsPrimitive<F>, f64: AsPrimitive<Pr> + AsPrimitive<F>,
+      F: num_traits::float::FloatCore + core::iter::Sum<F> + AsPrimitive<Pr> + Into<f64> + Debug + 'static {
+    let classes: Vec<u64> = case["classes"].as_array().unwrap().iter().map(|x| x.as_u64().unwrap()).collect();
+    let must_reject = case["must_reject"].as_bool().unwrap();
+    let w: Vec<F> = classes.iter().map(|c| AsPrimitive::<F>::as_(class_val(*c))).collect();
+    let n = w.len();
+    let syms: Vec<i32> = (0..n).map(relabel).collect();
+    let cands_r: Vec<i32> = (-40..40).collect();
+    rep.class(if must_reject { "float_must_reject" } else { "float_valid_input" });
+    // whatever a constructor returns must satisfy the contract (C03 for valid input, C19 for invalid input);
+    // a panic while USING a returned model is a violation, a refusal (Err or panic in the constructor) never is
+    macro_rules! ctor { ($name:expr, $built:expr, $chk:expr) => {{ rep.checks += 1; let nm = format!("{} ({} weights {:?})", $name, fname, w); match &$built {
+        Built::Panicked(msg) => { rep.class("ctor_panicked"); if mode == "c20" && is_ub_panic(msg) { rep.mismatch(case, format!("{}: {}", nm, msg)); } }
+        Built::Refused => { rep.class("ctor_refused"); }
+        Built::Model(m) => { rep.class("ctor_ok"); if (must_reject && mode == "c19") || (!must_reject && mode == "c03") || mode == "c20" { run!(rep, case, $chk(&nm, m).map(|_| 1)); } } } }} }
+    let total: F = w.iter().copied().sum();
+    for norm in [None, Some(total)] {
+        if norm.is_some() && must_reject { continue; }       // a normalisation is only documented for valid tables
+        ctor!("ContiguousCategoricalEntropyModel::from_floating_point_probabilities_fast", build(|| CC::<Pr, P>::from_floating_point_probabilities_fast(&w, norm)), |nm: &str, m: &CC<Pr, P>| contract_dec::<_, P>(nm, m).and_then(|_| contract_enc::<_, P>(nm, m, &(0..n + 2).collect::<Vec<usize>>())));
+        ctor!("LazyContiguousCategoricalEntropyModel::from_floating_point_probabilities_fast", build(|| LZ::<Pr, F, P>::from_floating_point_probabilities_fast(w.clone(), norm)), |nm: &str, m: &LZ<Pr, F, P>| contract_dec::<_, P>(nm, m).and_then(|_| contract_enc::<_, P>(nm, m, &(0..n + 2).collect::<Vec<usize>>())));
+        ctor!("ContiguousLookupDecoderModel::from_floating_point_probabilities_fast", build(|| CL::<Pr, P>::from_floating_point_probabilities_fast(&w, norm)), contract_dec::<CL<Pr, P>, P>);
+        ctor!("NonContiguousCategoricalDecoderModel::from_symbols_and_floating_point_probabilities_fast", build(|| ND::<i32, Pr, P>::from_symbols_and_floating_point_probabilities_fast(syms.iter().cloned(), &w, norm)), contract_dec::<ND<i32, Pr, P>, P>);
+        ctor!("NonContiguousCategoricalEncoderModel::from_symbols_and_floating_point_probabilities_fast", build(|| NE::<i32, Pr, P>::from_symbols_and_floating_point_probabilities_fast(syms.iter().cloned(), &w, norm)), |nm: &str, m: &NE<i32, Pr, P>| contract_enc::<_, P>(nm, m, &cands_r));
+        ctor!("NonContiguousLookupDecoderModel::from_symbols_and_floating_point_probabilities_fast", build(|| NL::<i32, Pr, P>::from_symbols_and_floating_point_probabilities_fast(syms.iter().cloned(), &w, norm)), contract_dec::<NL<i32, Pr, P>, P>);
+    }
+    ctor!("ContiguousCategoricalEntropyModel::from_floating_point_probabilities_perfect", build(|| CC::<Pr, P>::from_floating_point_probabilities_perfect(&w)), |nm: &str, m: &CC<Pr, P>| contract_dec::<_, P>(nm, m).and_then(|_| contract_enc::<_, P>(nm, m, &(0..n + 2).collect::<Vec<usize>>())));
+    ctor!("ContiguousLookupDecoderModel::from_floating_point_probabilities_perfect", build(|| CL::<Pr, P>::from_floating_point_probabilities_perfect(&w)), contract_dec::<CL<Pr, P>, P>);
+    ctor!("NonContiguousCategoricalDecoderModel::from_symbols_and_floating_point_probabilities_perfect", build(|| ND::<i32, Pr, P>::from_symbols_and_floating_point_probabilities_perfect(syms.iter().cloned(), &w)), contract_dec::<ND<i32, Pr, P>, P>);
+    ctor!("NonContiguousCategoricalEncoderModel::from_symbols_and_floating_point_probabilities_perfect", build(|| NE::<i32, Pr, P>::from_symbols_and_floating_point_probabilities_perfect(syms.iter().cloned(), &w)), |nm: &str, m: &NE<i32, Pr, P>| contract_enc::<_, P>(nm, m, &cands_r));
+    ctor!("NonContiguousLookupDecoderModel::from_symbols_and_floating_point_probabilities_perfect", build(|| NL::<i32, Pr, P>::from_symbols_and_floating_point_probabilities_perfect(syms.iter().cloned(), &w)), contract_dec::<NL<i32, Pr, P>, P>);
+}
+pub fn floatclass_case<Pr, const P: usize>(case: &Value, mode: &str, rep: &mut Report)
+where Pr: VInt + Into<usize> + AsPrimitive<usize> + Into<f64> + AsPrimitive<f32> + AsPrimitive<f64>, usize: AsPrimitive<Pr>, f64: AsPrimitive<Pr>, f32: AsPrimitive<Pr> {
+    floatclass_f::<Pr, f64, P>(case, mode, rep, "f64");
+    floatclass_f::<Pr, f32, P>(case, mode, rep, "f32");
 }
